@@ -260,7 +260,18 @@ def deep_texts():
                     "            Sn\n            " + '{"a": ' * n + "1" + "}" * n + "\nEnd\n"))
         out.append(("deep_list", "Struct Sn\n    a: number[]\nEnd\nTask productionTask\n    Sv\n        In\n"
                     "            Sn\n            {\"a\": " + "[" * n + "]" * n + "}\nEnd\n"))
+    # numbers beyond what the model's number type is given (and beyond json.loads' integer limit of
+    # 4300 digits): a verdict without raising
+    for k, lit in (("huge_int", "7" * 5000), ("huge_neg_int", "-" + "3" * 4400), ("huge_float", "1." + "5" * 5000)):
+        out.append((k, "Struct Sn\n    a: number\nEnd\nTask productionTask\n    Sv\n        In\n"
+                       "            Sn\n            {\"a\": " + lit + "}\nEnd\n"))
+    out.append(("huge_guard_int", "Task productionTask\n    Loop While " + "9" * 5000 + " < 1\n        Move\nEnd\n"))
     return out
+
+
+def impl_only(kind, why):
+    """texts judged on the implementation alone (no comparison of the verdict with the model)"""
+    return why == "deep_nesting" or kind.startswith("huge_")
 
 
 # ----------------------------------------------------------------------------------------
@@ -307,7 +318,7 @@ def slice_c16text(pid, cfg, tier, seed, workdir, rep, stats, findings):
     keep = []
     for kind, text in items:
         why = outside_model(text)
-        if why == "deep_nesting":
+        if impl_only(kind, why):
             # beyond the model: the implementation alone, no comparison of the verdict
             impl = run_impl(text)
             stats["c16text_impl_only"] += 1
@@ -350,7 +361,7 @@ def slice_c16text(pid, cfg, tier, seed, workdir, rep, stats, findings):
 def replay_c16text(pid, cfg, payload, workdir):
     text = payload["text"]
     why = outside_model(text)
-    if why == "deep_nesting":
+    if impl_only(str(payload.get("class", "")), why):
         impl = run_impl(text)
         w = judge_impl_only(impl)
         return {"fails": bool(w), "why": w if w else
